@@ -119,7 +119,12 @@ func commandErrIsFatal(err error) bool {
 	// FSET (and other writable commands) may return errors that we need
 	// to ignore during the loading process. These errors may occur (though unlikely)
 	// due to the aof rewrite operation.
-	return !(err == errKeyNotFound || err == errIDNotFound)
+	// A SETHOOK/SETCHAN may meet a hook of the other kind under its name: the
+	// rewrite writes the hooks last, so a name that was deleted and reused as
+	// the other kind while it ran is already taken when the earlier command
+	// is loaded. The later DEL and SET follow in the log.
+	return !(err == errKeyNotFound || err == errIDNotFound ||
+		err == errHookChannelSameName)
 }
 
 // flushAOF flushes all aof buffer data to disk. Set sync to true to sync the
